@@ -398,6 +398,7 @@ class Exec:
         s.allocs = []
         s.stack = []
         s.float_defs = {}
+        s.float_pending = {}
         s.side = {}             # harness scratch
         s.entry_steps = []
         s.unordered = set()
@@ -977,6 +978,9 @@ class Exec:
         # symbolic
         ref = a if sa else b
         if z3.is_fp(ref) or isinstance(a, float) or isinstance(b, float):
+            if s.float_pending and not (sa and sb and a.get_id() == b.get_id()):
+                from .models_num import materialize
+                materialize(s, a); materialize(s, b)
             if not sa: a = z3.FPVal(a, F64)
             if not sb: b = z3.FPVal(b, F64)
             if op == 'Eq': return z3.fpEQ(a, b)
@@ -1092,6 +1096,9 @@ class Exec:
                 if v >= hi: return hi
                 return int(v)
             # saturating, NaN -> 0
+            if s.float_pending:
+                from .models_num import materialize
+                materialize(s, v)
             flo = z3.FPVal(float(lo), F64); fhi = z3.FPVal(float(hi), F64)
             conv = z3.fpToSBV(z3.RTZ(), v, z3.BitVecSort(tb)) if ts else z3.fpToUBV(z3.RTZ(), v, z3.BitVecSort(tb))
             return z3.If(z3.fpIsNaN(v), z3.BitVecVal(0, tb),
